@@ -203,3 +203,51 @@ Theorem C11_session_history_independent :
     nth_error (run_session (pre ++ c :: post)) (List.length pre) = Some (run_call c).
 Proof. exact session_history_independent. Qed.
 Print Assumptions C11_session_history_independent.
+
+(* ---- extension round: is_odf_encrypted, what "accepted" bounds ---- *)
+(* is_odf_encrypted answers True only for a package that zipfile opened and the guard accepted; its member
+   read comes after the validation (every trace of the probe is accepted by trace_ok) *)
+Theorem C11_odf_encrypted_only_if_validated :
+  forall (L : limits) (z : bool) (o : zip_oracle) (enc : bool),
+    is_odf_encrypted L z o enc = SBool true ->
+    z = true /\ zo_opens o = true /\ validate_zipfile L (zo_infos o) = Accept.
+Proof. exact odf_encrypted_only_if_validated. Qed.
+Print Assumptions C11_odf_encrypted_only_if_validated.
+
+Theorem C11_odf_probe_validate_dominates_read :
+  forall (L : limits) (c : N) (z : bool) (o : zip_oracle), dominated (odf_probe_events L c z o).
+Proof. intros. apply trace_ok_sound. exact (odf_probe_dominated L c z o). Qed.
+Print Assumptions C11_odf_probe_validate_dominates_read.
+
+(* The guard judges the sizes CLAIMED BY THE CENTRAL DIRECTORY (the model's input `es` is zipfile's infolist():
+   ZIP64 extra fields decoded, local headers and data descriptors never consulted).  Accepted means: every
+   claimed size and ratio is within its limit ... *)
+Theorem C11_accept_bounds :
+  forall (L : limits) (es : list entry),
+    limits_exact L = true -> sizes_nonneg (files es) = true -> validate L es = Accept ->
+    Z.of_nat (List.length es) <= max_entries L
+    /\ total_u (files es) <= max_total L
+    /\ (forall x, In x (files es) -> file_size x <= max_single L
+                                    /\ (file_size x > 0 -> compress_size x > 0)
+                                    /\ (compress_size x > 0 -> ~ exceeds (file_size x) (compress_size x) (max_entry_ratio L)))
+    /\ (total_c (files es) > 0 -> ~ exceeds (total_u (files es)) (total_c (files es)) (max_total_ratio L)).
+Proof. exact accept_bounds. Qed.
+Print Assumptions C11_accept_bounds.
+
+(* ... hence, for every reader that obtains at most the claimed file_size from a member (zipfile.ZipExtFile
+   truncates its output to it: checked at run time), an accepted container yields at most max_total bytes
+   in all and max_single per member.  What the DEcompressor produces internally before that truncation is not
+   bounded by the claim: see the known finding inflate-exceeds-declared-size. *)
+Theorem C11_accepted_output_bounded :
+  forall (L : limits) (es : list entry) (out : entry -> Z),
+    limits_exact L = true -> sizes_nonneg (files es) = true -> validate L es = Accept ->
+    reader_truncates out (files es) = true ->
+    total_out out (files es) <= max_total L /\ forall x, In x (files es) -> out x <= max_single L.
+Proof. exact accepted_output_bounded. Qed.
+Print Assumptions C11_accepted_output_bounded.
+
+Example C11_reader_truncates_satisfiable :
+  reader_truncates (fun x => file_size x / 2)
+    [ {| file_size := 400; compress_size := 20; is_dir := false |} ] = true.
+Proof. vm_compute. reflexivity. Qed.
+Print Assumptions C11_reader_truncates_satisfiable.
